@@ -111,9 +111,10 @@ Theorem C15_spec_ok_pair_partial : forall fp v w,
 Proof. exact spec_ok_pair. Qed.
 Print Assumptions C15_spec_ok_pair_partial.
 
-(* memoize (default SimpleCache): a stored result is returned only for a call whose argument equals (py_same) the
-   argument of the call that produced it - for all call sequences over supported non-pandas arguments
-   (calls that raise are allowed by the statement; they are the subject of the pair theorems). *)
+(* memoize (default SimpleCache; key = to_hashable of the pair (args, kwargs)): a stored result is returned only for
+   a call whose (args, kwargs) equals (py_same) the (args, kwargs) of the call that produced it - for all call
+   sequences whose call values are supported and pandas-free (calls that raise are allowed by the statement; they
+   are the subject of the pair theorems).  In particular f(3, y=2) and f(3, ('y', 2)) never share a result. *)
 Theorem C15_memoize_sound_partial : forall args,
   (forall a, In a args -> supported a = true /\ no_pandas a = true) ->
   spec_ok (CMemo args) (run (CMemo args)) = true.
